@@ -221,10 +221,16 @@ class Extractor(object):
                     if isinstance(sub, ast.Name) and isinstance(sub.ctx, ast.Store):
                         p.env.pop(sub.id, None)
             return paths
-        if isinstance(st, ast.Try) and self.opaque_loops:
-            # body only (handlers are error paths)
+        if isinstance(st, ast.Try):
+            # normal path: body/orelse/finally; each handler: a separate path starting from the state before the try
+            before = [p.clone() for p in paths]
             out = self._block(st.body, paths, done)
             out = self._block(st.orelse, out, done)
+            for h in st.handlers:
+                hp = [p.clone() for p in before]
+                for p in hp:
+                    p.conds.append(("<except %s>" % (norm(h.type) if h.type is not None else ""), True, h))
+                out = out + self._block(h.body, hp, done)
             return self._block(st.finalbody, out, done)
         raise AnalysisError("decision-table extraction: statement kind %s not supported (line %d)" % (type(st).__name__, st.lineno))
 
@@ -254,3 +260,14 @@ def _fold_atom(src):
 
 def extract(func_node, opaque_loops=False):
     return Extractor(opaque_loops).paths(func_node)
+
+
+def extract_block(stmts, opaque_loops=False):
+    """paths through a statement list (e.g. a loop body); paths that run off the end have end == 'fall'"""
+    ex = Extractor(opaque_loops)
+    done = []
+    live = ex._block(list(stmts), [Path()], done)
+    for p in live:
+        p.end = "fall"
+        done.append(p)
+    return done
